@@ -3,10 +3,13 @@
 spec : GitConfig.tla - each enable/disable command is a total function on the abstract configuration of a
        scope; TLC checks Idempotent, ForeignUntouched, EnableAddsOnlyOwn, DisableUnroutes on every reachable
        configuration (all initial configurations of the property's quantifier, command sequences <= MaxLen).
-s->c : TLC-generated behaviours (random initial configuration + command sequence) are replayed against real git
-       in scratch repositories with a private HOME: the initial state is written with `git config --file`,
-       each command runs through the real entry point, and after every step the projection of git's files
-       must equal the model's state; every command is also run twice (idempotence on the real files).
+s->c : TLC-generated behaviours (random initial configuration + command sequence, plus systematic single-command
+       edges) are replayed against real git in scratch repositories with a private HOME: the initial state is written
+       with `git config --file`, each command runs through the real entry point (twice: idempotence on the files).
+c->s : every executed command is one trace event (pre/post projection of git's files) validated by TLC against the
+       property-level relation of GitConfigTrace.tla (OtherScopeUntouched, ForeignUntouched, EnableEstablishes,
+       EnableAddsOnlyOwn, DisableUnroutes, DisableKeepsRest, Idempotent, OneLinePerDriver); equality with the canonical
+       function GitConfig!Apply is recorded as model drift only.
 """
 import io
 import json
@@ -31,6 +34,14 @@ INVARIANT EnableAddsOnlyOwn
 INVARIANT DisableUnroutes
 VIEW View
 CONSTRAINT Emit
+CHECK_DEADLOCK FALSE
+"""
+TRACE_CFG = """SPECIFICATION TSpec
+CONSTANT MaxLen = 1
+CONSTANT EMIT = FALSE
+CONSTANT FullInit = FALSE
+CONSTANT Cover = FALSE
+POSTCONDITION Accepted
 CHECK_DEADLOCK FALSE
 """
 FOREIGN_RULE = "*.txt text"
@@ -194,48 +205,39 @@ def replay(task):
     try:
         sb.install(trace["init"])
         got = sb.project()
+        events = []
         if {s: strip(got[s]) for s in got} != trace["init"]:
-            return [("harness", "initial state could not be installed", {"want": trace["init"], "got": got})]
+            return [("harness", "initial state could not be installed", {"want": trace["init"], "got": got})], []
+        events = []
         for j, step in enumerate(trace["steps"]):
             cmd = step["cmd"]
+            pre = {s: strip(got[s]) for s in got}
             rc, err = run_command(sb, cmd)
             got = sb.project()
             name = "%s-%s-%s%s" % (cmd["tool"], "enable" if cmd["enable"] else "disable", cmd["scope"], "-default" if cmd["dflt"] else "")
             if rc != 0:
                 problems.append(("command-failed:%s" % name, "exit status %s: %s" % (rc, err), {"step": j}))
                 break
-            want = step["cfg"]
-            for s in ("repo", "global"):
-                bad = sorted(f for f in want[s] if strip(got[s])[f] != want[s][f])
-                if bad:
-                    where = "same-scope" if s == cmd["scope"] else "other-scope"
-                    problems.append(("state:%s:%s:%s" % (name, where, ",".join(bad)),
-                                     "after %s the %s configuration differs from the model in %s" % (name, s, bad),
-                                     {"step": j, "scope": s, "model": want[s], "real": strip(got[s])}))
-                if got[s]["_dups"]:
-                    problems.append(("duplicate-attributes-line:%s" % name, "more than one attributes line per driver in %s" % s, {"step": j}))
-                if got[s]["_garbled"]:
-                    problems.append(("attributes-content-damaged:%s" % name, "unrelated attributes content changed: %s" % got[s]["_garbled"], {"step": j}))
-            if problems:
-                break
-            # routing as git sees it
+            # routing as git sees it must agree with the attributes lines found
             rt = sb.routing()
-            exp_d = want["repo"]["adiff"] or want["global"]["adiff"]
-            exp_m = want["repo"]["amerge"] or want["global"]["amerge"]
+            exp_d = got["repo"]["adiff"] or got["global"]["adiff"]
+            exp_m = got["repo"]["amerge"] or got["global"]["amerge"]
             if rt != {"diff": exp_d, "merge": exp_m}:
                 problems.append(("routing:%s" % name, "git check-attr disagrees with the attributes lines", {"step": j, "git": rt}))
                 break
             # run it again: nothing may change (idempotence on the real files)
             before = {f: _read(f) for f in (sb.cfile("repo"), sb.cfile("global"), sb.afile("repo"), sb.afile("global"))}
-            rc, err = run_command(sb, cmd)
+            rc2, err = run_command(sb, cmd)
             after = {f: _read(f) for f in before}
-            if rc != 0 or before != after:
-                changed = [os.path.basename(f) for f in before if before[f] != after[f]]
-                problems.append(("not-idempotent:%s" % name, "running the command again changed %s" % changed, {"step": j}))
-                break
+            events.append({"tid": "t%d-%d" % (k, j), "cmd": cmd, "pre": pre, "post": {s: strip(got[s]) for s in got},
+                           "again": bool(rc2 != 0 or before != after),
+                           "dups": bool(got["repo"]["_dups"] or got["global"]["_dups"]),
+                           "garbled": bool(got["repo"]["_garbled"] or got["global"]["_garbled"]),
+                           "_name": name, "_model": step["cfg"]})
+            got = sb.project()
     finally:
         shutil.rmtree(d, True)
-    return [(sig, desc, dict(info, trace=trace)) for sig, desc, info in problems]
+    return [(sig, desc, dict(info, trace=trace)) for sig, desc, info in problems], events
 
 
 def _read(f):
@@ -301,13 +303,27 @@ def run():
     ctx = multiprocessing.get_context("fork")
     with ctx.Pool(common.NCPU, initializer=_silence) as pool:
         results = pool.map(replay, [(k, t, root) for k, t in enumerate(traces)], chunksize=4)
-    for t, probs in zip(traces, results):
+    events = []
+    for t, (probs, evs) in zip(traces, results):
         chk.count([s["cmd"] for s in t["steps"]] + [t["init"]], nontrivial=True)
+        events += evs
         for sig, desc, info in probs:
             if sig == "harness":
                 raise tlc.TLCError("harness problem: %s %s" % (desc, json.dumps(info)[:500]))
             chk.violation(sig, desc, info)
-    chk.cov["traces_validated_against_impl"] = len(traces)
+    meta = {}
+    for ev in events:
+        meta[ev["tid"]] = (ev.pop("_name"), ev.pop("_model"), ev)
+    v = common.validate("GitConfigTrace", TRACE_CFG, events, batch=400, name="c18")
+    chk.add_validation(v, "GitConfigTrace on %d executed commands" % len(events))
+    for tid, clauses in v.fails.items():
+        name, model, ev = meta[tid]
+        for c in clauses:
+            chk.violation("gitconfig:%s:%s" % (c, name), "clause %s is false for %s" % (c, name),
+                          {"cmd": ev["cmd"], "pre": ev["pre"], "post": ev["post"], "again": ev["again"], "dups": ev["dups"],
+                           "garbled": ev["garbled"], "model_post": model})
+    chk.notes["model_drift (post-state differs from GitConfig!Apply)"] = len(v.drift)
+    chk.notes["behaviours_replayed"] = len(traces)
     chk.notes["commands_executed_against_real_git"] = sum(len(t["steps"]) for t in traces) * 2
     chk.sample({"init": traces[0]["init"], "commands": [s["cmd"] for s in traces[0]["steps"]]})
     chk.cov["rule"] = ("behaviours generated by TLC -simulate from spec/GitConfig.tla: random initial configuration (default tools unset / "
